@@ -354,3 +354,118 @@ func ruleCallbackClose(p *Prog, r *Report, sp *ssa.Package) {
 		})
 	}
 }
+
+// ---- NONNEG: nothing is skipped backwards ------------------------------------------------------------------------
+//
+// (*box).Discard(n) checks remain >= n and then subtracts n from the box and all its parents. A negative n passes
+// the check and GROWS every remain on the way up; the error only comes from the buffered reader at the bottom, and
+// the close() that follows then skips the inflated remainder — past the end of the box. Every count handed to
+// (*box).Discard and (*Reader).discard must therefore be proved non-negative (E3): a constant, a length, a
+// conversion of an unsigned field, a difference whose order a dominating test establishes.
+func ruleDiscardNonNeg(p *Prog, r *Report, sp *ssa.Package) {
+	e := p.E3()
+	targets := map[*ssa.Function]bool{}
+	for _, nm := range [][2]string{{"*box", "Discard"}, {"*Reader", "discard"}} {
+		if f := p.Func("isobmff", nm[0], nm[1]); f != nil {
+			targets[f] = true
+		}
+	}
+	if len(targets) == 0 {
+		r.Undecided("NONNEG", "isobmff.(*box).Discard", "-", "unresolved anchor")
+		return
+	}
+	// the callee's own guard: in (*box).Discard every store to remain and every delegation is dominated by n >= 0
+	// (true edge) or n < 0 (false edge). With it no caller can do harm and the call sites need no proof.
+	guarded := map[*ssa.Function]bool{}
+	if f := p.Func("isobmff", "*box", "Discard"); f != nil && len(f.Params) == 2 {
+		n := ssa.Value(f.Params[1])
+		nonNegAt := func(b *ssa.BasicBlock) bool {
+			for _, cd := range condsAt(b) {
+				bo, ok := cd.V.(*ssa.BinOp)
+				if !ok {
+					continue
+				}
+				if bo.X == n {
+					if k, ok := constInt(bo.Y); ok && k == 0 {
+						if (cd.True && bo.Op == token.GEQ) || (!cd.True && bo.Op == token.LSS) {
+							return true
+						}
+					}
+					if k, ok := constInt(bo.Y); ok && k == -1 && cd.True && bo.Op == token.GTR {
+						return true
+					}
+				}
+				if bo.Y == n {
+					if k, ok := constInt(bo.X); ok && k == 0 {
+						if (cd.True && bo.Op == token.LEQ) || (!cd.True && bo.Op == token.GTR) {
+							return true
+						}
+					}
+				}
+			}
+			return false
+		}
+		all, cnt := true, 0
+		eachInstr(f, func(b *ssa.BasicBlock, _ int, in ssa.Instruction) {
+			switch x := in.(type) {
+			case *ssa.Store:
+				if fa, ok := x.Addr.(*ssa.FieldAddr); ok && fieldName(fa.X.Type(), fa.Field) == "remain" {
+					cnt++
+					if !nonNegAt(b) {
+						all = false
+					}
+				}
+			case ssa.CallInstruction:
+				if sc := x.Common().StaticCallee(); sc != nil && targets[sc] {
+					cnt++
+					if !nonNegAt(b) {
+						all = false
+					}
+				}
+			}
+		})
+		key := "isobmff.(*box).Discard | a negative count is refused before anything is changed"
+		if all && cnt > 0 {
+			guarded[f] = true
+			r.OK("NONNEG", key, p.posStr(f.Pos()), fmt.Sprintf("%d state changes and delegations, all under n >= 0", cnt))
+		} else {
+			r.Bad("NONNEG", key, p.posStr(f.Pos()), "(*box).Discard changes remain or delegates without having tested n >= 0: a negative count passes remain >= n and enlarges the box and every enclosing box; the close() that follows then reads past their ends (the call sites below show where such a count can come from)")
+		}
+	}
+	for _, f := range pkgFns(sp, p) {
+		eachCall(f, func(site ssa.CallInstruction) {
+			c := site.Common()
+			sc := c.StaticCallee()
+			if sc == nil || !targets[sc] || len(c.Args) < 2 {
+				return
+			}
+			arg := c.Args[1]
+			key := fmt.Sprintf("%s | %s(%s)", fnName(f), sc.Name(), shortVal(arg))
+			at := p.posStr(instrPos(site))
+			if k, ok := constInt(arg); ok {
+				if k >= 0 {
+					r.OK("NONNEG", key, at, "constant count")
+				} else {
+					r.Bad("NONNEG", key, at, "negative constant count")
+				}
+				return
+			}
+			if e.ProveLE(site.Block(), zeroT, e.termOf(arg), 0) {
+				r.OK("NONNEG", key, at, "count proved non-negative")
+				return
+			}
+			if guarded[sc] {
+				r.OK("NONNEG", key, at, "count not proved non-negative here (range "+e.rng(arg).String()+"), refused by the callee's own guard")
+				return
+			}
+			// inside Discard itself the delegation to the parent passes the same n on: accepted when the function's own
+			// parameter is what is passed (the caller's obligation)
+			if prm, ok := arg.(*ssa.Parameter); ok && targets[f] && prm.Parent() == f {
+				r.OK("NONNEG", key, at, "the caller's own count passed on")
+				return
+			}
+			rg := e.rng(arg)
+			r.Bad("NONNEG", key, at, fmt.Sprintf("the count may be negative (range %s): a negative skip passes the remain >= n check and enlarges the remaining size of the box and of every enclosing box, and the close() that follows reads past their ends", rg))
+		})
+	}
+}
